@@ -49,3 +49,4 @@ cfg("GEN_RBC_nf", chan="ChanA", fifo="FALSE", prog="P_two3", budget=4, alpha="Al
 cfg("GEN_RBC_sw", prog="P_switch3", budget=2, alpha="AlphaForge", **GEN)
 cfg("GEN_RBC_h4", honest="H4", prog="P_one4", **GEN)
 cfg("GEN_RBC_df", prog="P_switch3", dfrom="D1", **GEN)
+cfg("GEN_RBC_rec", prog="P_rec3", **dict(GEN, gen=90))
